@@ -193,19 +193,19 @@ namespace pika::split_tuple_detail {
 
             void operator()(pika::execution::detail::stopped_type)
             {
-                constexpr bool sends_stopped =
 #if defined(PIKA_HAVE_STDEXEC)
-                    pika::execution::experimental::sends_stopped<Sender,
-                        pika::execution::experimental::empty_env>
-#else
-                    pika::execution::experimental::sender_traits<Sender>::sends_done
-#endif
-                    ;
+                constexpr bool sends_stopped = pika::execution::experimental::sends_stopped<Sender,
+                    pika::execution::experimental::empty_env>;
                 if constexpr (sends_stopped)
                 {
                     pika::execution::experimental::set_stopped(std::move(receiver));
                 }
                 else { PIKA_UNREACHABLE; }
+#else
+                // sends_done is hard-coded to false by the adaptors and any_sender even though
+                // they forward set_stopped, so it cannot be relied on here
+                pika::execution::experimental::set_stopped(std::move(receiver));
+#endif
             }
 
             void operator()(error_type const& error)
